@@ -28,6 +28,7 @@ BOUND = ("dimension 1..3; K=2..3 classes labelled 0..K-1 (Gaussian blobs, well s
          "data are evaluated again and every DataSet / summary / class array handed out earlier is compared with a copy taken when it was returned. Anchor cases: 5000/4500-sample "
          "queries, standard learning up to level 8 (component grids > 200 points). Every class "
          "occurs in the learning part (by construction); query DataSets are always fresh, unscaled objects")
+BOUND += "; fault / magnitude additions: two directed dimension-wise cases whose first learning attempt fails at the last invocation of the user's error calculator, followed by a second attempt on the same object"
 RULE = BOUND + "; one case = (data seed, configuration, operation list with their seeds); non-trivial = learning completed and at least one operation ran"
 CLAUSES = {
     "B.class.density_kernel": "the hat evaluation the class densities are computed with (completely vectorised non-symmetric hat of the component-grid interpolation) equals the product of the "
